@@ -218,6 +218,12 @@ def _dump(V):
         kw["fmt"] = fmt
     if mode != "default":
         kw["mode"] = mode
+    # an option of the class writer (e.g. write_header=False) given to the entry point reaches the class writer unchanged
+    optv = Opaque("obj:option-value")
+    opt = V.choose([False, True], "caller-passes-a-writer-option")
+    want_kw = {"write_header": optv} if opt else {}
+    kw.update(want_kw)
+    same_kw = lambda got: set(dict(got)) == set(want_kw) and all(dict(got)[k_] is want_kw[k_] for k_ in want_kw)
     out = V.call("molli.writer:dump", [obj, target], kw)
     tr = st.trace
     opens = [e for e in tr if e[0] in ("open", "open-failed")]
@@ -232,7 +238,7 @@ def _dump(V):
         meth = f"dump_{f}"
         if kind == "stream":
             good = (not opens and len(cl) == 1 and cl[0][1] == meth and cl[0][2][0] is obj and cl[0][2][1] is target
-                    and len(cl[0][2]) == 2 and not cl[0][3] and not target.fields["closed"]
+                    and len(cl[0][2]) == 2 and same_kw(cl[0][3]) and not target.fields["closed"]
                     and ((out.returned and out.value is None) or (out.kind == "raise" and out.exc is cl[0][5])))
         else:
             if opens and opens[0][0] == "open-failed":
@@ -241,7 +247,7 @@ def _dump(V):
                 s = opens[0][1] if opens else None
                 good = (len(opens) == 1 and I.eq(_pathstr(opens[0][2]), pstr) is True and opens[0][3] == emode
                         and len(cl) == 1 and cl[0][1] == meth and cl[0][2][0] is obj and cl[0][2][1] is s and len(cl[0][2]) == 2
-                        and not cl[0][3] and s.fields["closed"]
+                        and same_kw(cl[0][3]) and s.fields["closed"]
                         and ((out.returned and out.value is None) or (out.kind == "raise" and out.exc is cl[0][5])))
         V.ensure(f"post/{f}:writes-obj.dump_{f}-to-the-stream-given", z3.Implies(isf, z3.BoolVal(bool(good))))
     unsupported = z3.And(efmt != z3.StringVal("xyz"), efmt != z3.StringVal("mol2"))
@@ -264,12 +270,15 @@ def _dumps(V):
     fmt = V.sym("fmt", "str")
     ocls = V.choose(CLASSES, "objclass")
     obj = Obj(V.cls(ocls), {}, tag="obj")
-    V.witness(lambda ev: {"fn": "dumps", "fmt": ev(fmt), "objclass": ocls, "signature": "dumps"})
+    optv = Opaque("obj:option-value")
+    opt = V.choose([False, True], "caller-passes-a-writer-option")
+    want_kw = {"write_header": optv} if opt else {}
+    V.witness(lambda ev: {"fn": "dumps", "fmt": ev(fmt), "objclass": ocls, "option": opt, "signature": "dumps"})
     V.cover()
-    out = V.call("molli.writer:dumps", [obj, fmt], {})
+    out = V.call("molli.writer:dumps", [obj, fmt], dict(want_kw))
     cl = calls(st.trace)
     for f in ("xyz", "mol2"):
-        good = (len(cl) == 1 and cl[0][1] == f"dumps_{f}" and cl[0][2] == (obj,) and not cl[0][3]
+        good = (len(cl) == 1 and cl[0][1] == f"dumps_{f}" and cl[0][2] == (obj,) and set(dict(cl[0][3])) == set(want_kw) and all(dict(cl[0][3])[k_] is want_kw[k_] for k_ in want_kw)
                 and ((out.returned and out.value is cl[0][4]) or (out.kind == "raise" and out.exc is cl[0][5])))
         V.ensure(f"post/{f}:returns-obj.dumps_{f}", z3.Implies(fmt.z == z3.StringVal(f), z3.BoolVal(bool(good))))
     unsupported = z3.And(fmt.z != z3.StringVal("xyz"), fmt.z != z3.StringVal("mol2"))
